@@ -528,8 +528,8 @@ Section NodeCount.
 
   Lemma list_depth_le_63 capN : capacity_ok capN -> (list_depth ek capN <= 63)%nat.
   Proof.
-    intros [C1 C2]. unfold list_depth.
-    destruct (int_log_spec capN C1 C2) as [_ Hl]. specialize (Hl 63%nat C2). lia.
+    intros C2. unfold capacity_ok in C2. unfold list_depth.
+    destruct (int_log_spec capN C2) as [_ Hl]. specialize (Hl 63%nat C2). lia.
   Qed.
 End NodeCount.
 
